@@ -240,6 +240,7 @@ pub fn c04_scenarios() -> Vec<Scenario> {
             vec![StreamSpec::new(m(&[]), m(&[1])), StreamSpec::new(m(&[]), m(&[1])), StreamSpec::new(m(&[]), m(&[1])), StreamSpec::new(m(&[]), m(&[1]))],
         ));
     }
+    v.extend(early_response_scenarios().into_iter().filter(|s| ["early-response", "early-response-blocked-response"].contains(&s.name.as_str())));
     v
 }
 
@@ -306,9 +307,8 @@ fn judge_c06(h: &T1Harness, t: &mut T1, end: RunEnd) -> V3 {
     }
     // (a) goal: evaluated on the state *before* the forced polls would be unfair to h2 if they helped; they are a violation anyway
     let log = t.log.snapshot();
-    let expect_complete = h.sc.streams.iter().all(|s| s.cancel == Cancel::None);
     if v.is_empty() {
-        let f = check_fidelity(h.sc, &log, &t.mon, true, expect_complete);
+        let f = check_fidelity(h.sc, &log, &t.mon, true, crate::c01::Expect::PerSpec);
         for (rule, sig, what) in f.vios {
             if rule == "C01.incomplete" {
                 v.push(("C06.goal".into(), sig, what));
@@ -387,6 +387,7 @@ pub fn c06_scenarios() -> Vec<Scenario> {
         Cfg { c_max_send_buffer: Some(1), s_max_send_buffer: Some(1), ..Cfg::default() },
         vec![StreamSpec::new(MsgSpec { use_capacity: true, ..m(&[6]) }, MsgSpec { use_capacity: true, ..m(&[6]) })],
     ));
+    v.extend(early_response_scenarios().into_iter().filter(|s| s.name != "early-response-short-request"));
     v
 }
 
@@ -462,6 +463,8 @@ fn judge_c17(h: &T1Harness, t: &mut T1, end: RunEnd) -> V3 {
             Cancel::ServerReset { code, .. } => (Side::Server, Some(code)),
             Cancel::ClientDrop { .. } => (Side::Client, Some(8)),
             Cancel::ServerDrop => (Side::Server, None),
+            // complete response, request not read to its end: NO_ERROR (RFC 9113 8.1)
+            Cancel::ServerEarlyResponse => (Side::Server, Some(0)),
             Cancel::None => {
                 // a stream that was never reset or dropped early gets no RST from either side, except the server's
                 // NO_ERROR reset when it finished responding before reading the whole request (not scripted here)
@@ -549,6 +552,23 @@ fn judge_c17(h: &T1Harness, t: &mut T1, end: RunEnd) -> V3 {
     v
 }
 
+/// early responses (RFC 9113 8.1): the server answers completely without reading the request to its end
+pub fn early_response_scenarios() -> Vec<Scenario> {
+    let e = |req: MsgSpec, resp: MsgSpec| StreamSpec { cancel: Cancel::ServerEarlyResponse, ..StreamSpec::new(req, resp) };
+    vec![
+        // (the request must outlast the response: it is larger than the window of a server that does not read it)
+        mk("early-response", Cfg { s_stream_window: Some(7), ..Cfg::default() }, vec![e(m(&[5, 5]), m(&[4])), StreamSpec::new(m(&[2]), m(&[2]))]),
+        // the client is blocked on the server's stream window when the response and the reset arrive
+        mk("early-response-client-blocked", Cfg { s_stream_window: Some(7), ..Cfg::default() }, vec![e(m(&[20, 20]), m(&[4]))]),
+        // the response itself is blocked on the client's window: the NO_ERROR reset waits behind the DATA
+        mk("early-response-blocked-response", Cfg { c_stream_window: Some(7), s_stream_window: Some(7), ..Cfg::default() }, vec![StreamSpec { c_recv: RecvMode::Late, ..e(m(&[5, 5]), m(&[20])) }, StreamSpec::new(m(&[2]), m(&[2]))]),
+        // the request ends by itself meanwhile (no reset owed if END_STREAM arrives first)
+        mk("early-response-short-request", Cfg::default(), vec![e(m(&[3]), m(&[4, 4]))]),
+        // only one stream at a time: the slot of the early-answered stream must come back
+        mk("early-response-max-concurrent-1", Cfg { s_max_concurrent: Some(1), c_initial_max_send_streams: Some(1), c_stream_window: Some(7), s_stream_window: Some(7), ..Cfg::default() }, vec![e(m(&[5, 5]), m(&[20])), StreamSpec::new(m(&[2]), m(&[2]))]),
+    ]
+}
+
 pub fn c17_scenarios(quick: bool) -> Vec<Scenario> {
     let mut v = vec![];
     let codes: Vec<u32> = if quick { vec![0, 8, 0xffff_ffff] } else { vec![0, 1, 2, 7, 8, 0xd, 0xe, 0x8000_0000, 0xffff_ffff] };
@@ -595,6 +615,7 @@ pub fn c17_scenarios(quick: bool) -> Vec<Scenario> {
         Cfg { reset_expire_now: true, ..Cfg::default() },
         vec![StreamSpec { cancel: Cancel::ClientReset { after_chunks: 1, code: 8 }, ..StreamSpec::new(m(&[5, 5]), m(&[4])) }, StreamSpec::new(m(&[2]), m(&[2]))],
     ));
+    v.extend(early_response_scenarios());
     v
 }
 
